@@ -113,7 +113,8 @@ def run(rep, tier):
                 "over the arguments, extra free and schematic variables, logical constants, the defined constant itself, other instances of an "
                 "overloaded name, closed polymorphic formulas; names new / overloaded / already declared) to the theory machine and emits all of "
                 "them; each is printed, parsed by items.parse_item and installed. Plus %d seeded random larger candidates in theory nat, "
-                "generated datatypes (<= 2 constructors) with functions / predicates over them, and every item of %s library files with "
+                "generated datatypes (<= 3 constructors; uniform and NON-uniform recursion: other instances, swapped / identified parameters, "
+                "nested in fun / list / pair / itself; arity 0-2) with functions / predicates over them, and every item of %s library files with "
                 "export_json and get_display/parse_edit round trips. Non-trivial = item accepted and installed (clauses evaluated on the "
                 "parsed object and its extensions) or a round trip compared; distinct by full event content."
                 % (nrand, "7 sampled" if quick else "all 43"))
@@ -224,6 +225,10 @@ def run(rep, tier):
             "C11: too few accepted items examined (vacuity guard): %s" % t)
     require(rep.notes["library"]["definitions"] >= (5 if quick else 140) and rep.notes["library"]["round_trips"] >= (400 if quick else 7000),
             "C11: too few library items examined (vacuity guard): %s" % rep.notes["library"])
+    n_nu = sum(1 for e in evs["gen"] if e["kind"] == "item" and e["key"].startswith("gen:datatype_nu:") and e["installed"])
+    rep.notes["generated_datatypes"] = {"installed": sum(1 for e in evs["gen"] if e["kind"] == "item" and e["ty"] == "type.ind" and e["installed"]),
+                                        "with_non_uniform_recursion_or_arity_2": n_nu}
+    require(n_nu >= 40, "C11: too few datatypes with non-uniform recursion were accepted and examined (vacuity guard): %d" % n_nu)
     n_judged = sum(1 for i in v["info"] if i["conservative"] in ("yes", "NO"))
     rep.notes["semantic_witness_evaluated"] = n_judged
     require(n_judged >= 80, "C11: the semantic reading was evaluated on too few accepted definitions")
